@@ -115,6 +115,17 @@ def triples(classes, leaves, fill=None):
     return out
 
 
+def thin(seq, k, seed=0):
+    """At most k elements of seq, in their order, chosen by a seeded sample.  (A fixed stride can alias with the period of an
+    enumeration - it once dropped every statement stream that had a dependency; a seeded sample cannot.)"""
+    import random
+    seq = list(seq)
+    if len(seq) <= k:
+        return seq
+    idx = sorted(random.Random(seed).sample(range(len(seq)), k))
+    return [seq[i] for i in idx]
+
+
 def dedup(exprs):
     seen = set()
     out = []
